@@ -326,8 +326,8 @@ Lemma step_other_maps : forall s st a st' r,
 Proof.
   intros s st a st' r H Hna. destruct a as [t ids rv lv|t ids rv lv|t ids].
   - exfalso. eapply Hna. reflexivity.
-  - cbn [step] in H. destruct (prepare_opt prepare_ref _ rv); [|discriminate].
-    destruct (prepare_opt prepare_reflist _ lv); [|discriminate].
+  - cbn [step] in H. destruct (prepare_opt prepare_ref _ _); [|discriminate].
+    destruct (prepare_opt prepare_reflist _ _); [|discriminate].
     destruct (existsb _ _); [discriminate|]. inversion H; subst. split; reflexivity.
   - cbn [step] in H. inversion H; subst. split; reflexivity.
 Qed.
